@@ -91,6 +91,16 @@ Proof.
   induction l as [|a r IH]; intros seen; cbn; [discriminate|].
   destruct a; try discriminate. destruct (existsb (Z.eqb id) seen); cbn; [discriminate|apply IH].
 Qed.
+Lemma lp_oracles_loop_total : forall l seen, lp_oracles_loop seen l <> VPanic.
+Proof.
+  induction l as [|b r IH]; intros seen; cbn; [discriminate|].
+  destruct b; try discriminate. destruct (existsb (Z.eqb id) seen); cbn; [discriminate|apply IH].
+Qed.
+Lemma lp_aliases_loop_total : forall l seen, lp_aliases_loop seen l <> VPanic.
+Proof.
+  induction l as [|a r IH]; intros seen; cbn; [discriminate|].
+  destruct a; try discriminate. destruct (existsb (Z.eqb id) seen); cbn; [discriminate|apply IH].
+Qed.
 Lemma stores_loop_total : forall l, stores_loop l <> VPanic.
 Proof.
   induction l as [|s r IH]; cbn; [discriminate|].
@@ -247,6 +257,15 @@ Proof.
   - unfold v_MultisigGas. cbn.
     destruct (size =? nkeys) eqn:E1; cbn; [|discriminate]. destruct (ntrue =? nsigs) eqn:E2; cbn; [|discriminate].
     apply Z.eqb_eq in E1, E2. subst. rewrite !Z.leb_refl. cbn. discriminate.
+  - destruct m as [c a l]; unfold v_UpdateChainOraclesProposal; cbn.
+    destruct (chain_known c); cbn; [|discriminate]. destruct a; cbn; [|discriminate].
+    destruct l; cbn; [discriminate|]. apply (lp_oracles_loop_total (b :: l) []).
+  - destruct m; unfold v_RegisterCoinProposal; flow.
+  - destruct m as [x l a]; unfold v_RegisterERC20Proposal; cbn.
+    destruct (eth_ok x); cbn; [|discriminate].
+    pose proof (lp_aliases_loop_total l []) as HT. destruct (lp_aliases_loop [] l); try congruence; try discriminate. flow.
+  - destruct m; unfold v_ToggleTokenConversionProposal; flow.
+  - destruct m; unfold v_UpdateDenomAliasProposal; flow.
 Qed.
 
 (* two more inputs make the transcribed Go functions panic, but no decoder can produce them: go-ethereum's abi package
